@@ -350,6 +350,9 @@ class EvolvableCNN(EvolvableModule):
             if key in old_buffers and old_buffers[key].size() == buffer.size():
                 buffer.data = old_buffers[key].data
 
+        # A freshly built network is in training mode: keep the mode of the one it replaces
+        new_net.train(old_net.training)
+
         return new_net
 
     def init_weights_gaussian(self, std_coeff: float = 4) -> None:
